@@ -95,8 +95,10 @@ def nested(tier):
         t.file("R/A/AA/AAA/aaa1.txt", 4)
         t.file("R/AB/ab1.txt", 5)
         t.file("R/B/b1.txt", 6)
-        cands = ["R/A/AA/AAA", "R/A/AA", "R/AB", "R/B"]
+        cands = ["R/A/AA/AAA", "R/A/AA", "R/A", "R/AB", "R/B"]
         chosen = [c for c in cands if sym.flag("hist_" + c.replace("/", "_"))]
+        if len(chosen) > (3 if tier == "quick" else 5):
+            sym.assume(False)
         if sym.flag("reverse_order"):
             chosen = chosen[::-1]
         for c in chosen:
@@ -161,7 +163,7 @@ def harnesses(tier):
         Harness("c02-nested", nested(tier), frontier=5, budget_s=1500,
                 what="create on U2 with any subset of 4 candidate nested histories created in either order",
                 bounds={"tree": "R/{s.txt,A/{a1.txt,AA/{aa1.txt,AAA/{aaa1.txt}}},AB/{ab1.txt},B/{b1.txt}}",
-                        "nested roots": "any subset of A/AA/AAA, A/AA, AB, B"}, outside=out),
+                        "nested roots": "any subset (<=3 quick) of A/AA/AAA, A/AA, A, AB, B (A/AB are prefix siblings)"}, outside=out),
         Harness("c02-sf", single_files(tier), frontier=4, budget_s=900,
                 what="create -sf with 6 selections (file, nested file, folder, two files, file+folder, empty folder), optional child history at d",
                 bounds={"selections": 6}, outside=out),
